@@ -2,6 +2,7 @@
 # tools/run_all.sh [tier]: run every claimed check once (default seed) and summarise; regenerates evidence/.
 cd "$(dirname "$0")/.."
 TIER="${1:-quick}"
+mkdir -p work/tmp
 for m in checks/C*.manifest.json; do
   id=$(basename "$m" .manifest.json)
   start=$(date +%s)
